@@ -118,14 +118,20 @@ C11Src(fp, dp, mt) ==
 C11SrcX(fp, dp, mt) ==     \* an EMPTY file and a file whose old copy is empty; owners and groups other than the receiving user's
   LET x == With(With(C11Src(fp, dp, mt), "e", Reg(5, 0, mt, 0, fp)), "g", Reg(6, 12, mt, 0, fp))
   IN With(With(With(With(With(x, "z", Dir(493)), "f", Own(x["f"], 1234, 4321)), "d", Own(x["d"], 1234, 0)), "d/f", Own(x["d/f"], 0, 4321)), "l", Own(x["l"], 1234, 4321))     \* "z": a writable directory listed AFTER the read-only "ro"
+C11Present(mt) ==
+  With(With(With(With(With(With(With(EmptyFs, "d", Dir(448)), "d/f", Reg(1, 20, mt - 1, 600000000, 384)),   \* same content, other perm, mtime 0.4 s before the source's
+       "f", Own(Reg(8, 30, 777, 0, 416), 7, 7)), "l", Lnk("zzz")), "ro", Dir(493)), "e", Reg(9, 7, 777, 0, 384)), "g", Reg(9, 0, 777, 0, 384))
 C11Prior(kind, mt) ==
   IF kind = "absent" THEN EmptyFs
-  ELSE With(With(With(With(With(With(With(EmptyFs, "d", Dir(448)), "d/f", Reg(1, 20, mt - 1, 600000000, 384)),   \* same content, other perm, mtime 0.4 s before the source's
-       "f", Own(Reg(8, 30, 777, 0, 416), 7, 7)), "l", Lnk("zzz")), "ro", Dir(493)), "e", Reg(9, 7, 777, 0, 384)), "g", Reg(9, 0, 777, 0, 384))
-C11Scn ==
+  ELSE IF kind = "lnkdir" THEN      \* where the source has the directory "d", the destination has a symlink to one of its own directories
+    With(With(C11Present(mt), "d", Lnk("ro")), "d/f", Absent)
+  ELSE C11Present(mt)
+C11ScnOf(K, FP, MT) ==
   { Scn(C11Prior(k, mt), ListOf(C11SrcX(fp, dp, mt)), OG(OX(TRUE, l, p, t, TRUE, TRUE, c, FALSE, FALSE, FALSE), og, og), 0, {}) :
-      og \in BOOLEAN, k \in {"absent", "present"}, fp \in C11Perms, dp \in {493, 365, 448, 320}, mt \in {1000, 1, 2000000000, 0 - 2, 0 - 2000000000},
+      og \in BOOLEAN, k \in K, fp \in FP, dp \in {493, 365, 448, 320}, mt \in MT,
       l \in BOOLEAN, p \in BOOLEAN, t \in BOOLEAN, c \in BOOLEAN }
+C11Scn == C11ScnOf({"absent", "present"}, C11Perms, {1000, 1, 2000000000, 0 - 2, 0 - 2000000000})
+          \cup C11ScnOf({"lnkdir"}, {420, 365}, {1000, 0 - 2})
 
 (* =================================================================== C13 *)
 (* Universe = <<".", "a", "b", "c", "d", "d/a", "d/b", "d/e", "d/e/a">>: the same *)
